@@ -20,6 +20,8 @@ pub fn generics(
     let mut types = HashSet::new();
     let mut fields = HashSet::new();
     let mut functions = HashSet::new();
+    // Imported names only stand in for classes that no file of the project defines
+    let mut imported = vec![];
 
     for file in files {
         match &file.node {
@@ -44,9 +46,7 @@ pub fn generics(
                             from,
                             import,
                             alias,
-                        } => from_import(from, import, alias)?.into_iter().for_each(|t| {
-                            types.insert(t);
-                        }),
+                        } => imported.append(&mut from_import(from, import, alias)?),
                         _ => {}
                     }
                 }
@@ -55,6 +55,9 @@ pub fn generics(
         }
     }
 
+    imported.into_iter().for_each(|t| {
+        types.insert(t);
+    });
     Ok((types, fields, functions))
 }
 
